@@ -98,6 +98,16 @@ pub(crate) struct VersionSet {
     This field corresponds to the `VersionSet::descriptor_log_` field.
     */
     maybe_manifest_file: Option<Arc<Mutex<LogWriter>>>,
+
+    /**
+    The error of the first failed write to the current manifest file if there was one.
+
+    A failed write may have left part of a record at the end of the manifest. A record appended
+    behind it would make the manifest unreadable from the partial record on (manifest recovery
+    does not tolerate a damaged record), so nothing more is written to that file. The partial
+    record alone is just a torn tail for the next recovery.
+    */
+    maybe_manifest_write_error: Option<WriteError>,
 }
 
 /// Public methods
@@ -132,6 +142,7 @@ impl VersionSet {
             current_version,
             compaction_pointers: Default::default(),
             maybe_manifest_file: None,
+            maybe_manifest_write_error: None,
         }
     }
 
@@ -478,6 +489,19 @@ impl VersionSet {
         db_fields_guard: &mut MutexGuard<GuardedDbFields>,
         change_manifest: &mut VersionChangeManifest,
     ) -> WriteResult<()> {
+        if let Some(previous_error) = db_fields_guard
+            .version_set
+            .maybe_manifest_write_error
+            .as_ref()
+        {
+            log::error!(
+                "Refusing to append to the manifest file because an earlier write to it failed. \
+                Original error: {}.",
+                previous_error
+            );
+            return Err(previous_error.clone());
+        }
+
         let (new_version, created_new_manifest_file) =
             VersionSet::get_new_version_from_current(db_fields_guard, change_manifest)?;
 
@@ -524,6 +548,11 @@ impl VersionSet {
                             ManifestWriteErrorKind::ManifestErrorCleanup(remove_file_error.into()),
                         ));
                     }
+                }
+
+                if !created_new_manifest_file {
+                    // The manifest that is still in use may now end in a partial record.
+                    version_set.maybe_manifest_write_error = Some(error.clone());
                 }
 
                 // The new version was not installed. Callers must not act as if it was e.g. drop
